@@ -44,18 +44,107 @@ def gen_sched_producer(rnd: random.Random, now: int, depth: int = 0):
 
 
 class SchedCase:
-    def __init__(self, seed: int, executor: str, epoch_ns: int, lines: list[str], specs: dict, meta: dict) -> None:
+    def __init__(self, seed: int, executor: str, epoch_ns: int, lines: list[str], specs: dict, meta: dict,
+                 tz: str = 'UTC') -> None:
         self.seed, self.executor, self.epoch_ns = seed, executor, epoch_ns
-        self.lines, self.specs, self.meta = lines, specs, meta
+        self.lines, self.specs, self.meta, self.tz = lines, specs, meta, tz
 
     def header(self) -> list[str]:
-        return ['zone 0', f'seed {self.seed}', f'sched-reset {self.epoch_ns}']
+        from tz import zone_line
+        return [zone_line(self.tz), f'seed {self.seed}', f'sched-reset {self.epoch_ns}']
+
+
+SCHED_ZONES = ['Europe/Berlin', 'America/New_York', 'Australia/Lord_Howe', 'America/Havana', 'Pacific/Chatham']
+
+
+def pick_epoch(rnd: random.Random) -> tuple[str, int]:
+    """70 %: UTC at 2024-01-01; otherwise a zone with DST, a few grid steps before one of its clock changes"""
+    if rnd.random() < 0.7:
+        return 'UTC', 1_704_067_200_000_000_000 + rnd.choice([0, 0, 12345 * NS_US])
+    from tz import transitions
+    z = rnd.choice(SCHED_ZONES)
+    tr = transitions(z, 1_577_836_800, 1_893_456_000)      # 2020 .. 2030
+    t, _, _ = rnd.choice(tr)
+    return z, t * 1_000_000_000 - rnd.choice([0, 1, 2, 4, 8, 12]) * U
+
+
+PROFILES = {
+    # cumulative thresholds: create, time, enable, callbacks, (rest: control operations)
+    None: (0.22, 0.50, 0.56, 0.66),
+    'C02': (0.20, 0.44, 0.56, 0.60),
+    'C07': (0.20, 0.40, 0.44, 0.68),
+    'C08': (0.14, 0.50, 0.53, 0.55),
+    'C09': (0.30, 0.62, 0.70, 0.72),
+    'C10': (0.24, 0.52, 0.56, 0.70),
+}
+
+
+def gen_retime_case(seed: int, rnd: random.Random) -> SchedCase:
+    """directed scenario: several queued jobs, then re-timings (set_countdown + reset, pause/resume, cancel) that
+    move a job to another queue position, then everything becomes due (in one wake-up or one after another)"""
+    tzname, epoch = pick_epoch(rnd)
+    executor = rnd.choice(['sync', 'async'])
+    lines: list[str] = []
+    specs: dict[int, tuple] = {}
+    jobs: list[tuple[int, str]] = []
+
+    def emit(x: str) -> None:
+        lines.append('op ' + x)
+    n = rnd.randint(3, 7)
+    for h in range(1, n + 1):
+        kind = rnd.choice(['once', 'countdown', 'countdown', 'at'])
+        if kind == 'once':
+            emit(f'create {h} - (once {epoch + rnd.randint(1, 24) * U}) - -')
+        elif kind == 'countdown':
+            emit(f'create {h} - (countdown {rnd.randint(2, 24) * U}) - -')
+        else:
+            p = ('interval', rnd.choice([None, epoch + rnd.randint(1, 24) * U]), rnd.randint(10, 30) * U, None)
+            specs[h] = p
+            emit(f'create {h} - (at {prod_sx(p)}) - -')
+        emit('yield')
+        emit(f'cbreg u {h} 0')
+        emit(f'cbreg f {h} 0')
+        if kind == 'countdown':
+            emit(f'reset {h}')
+            emit('yield')
+        jobs.append((h, kind))
+    for _ in range(rnd.randint(1, 5)):
+        h, kind = rnd.choice(jobs)
+        r = rnd.random()
+        if kind == 'countdown' and r < 0.75:
+            emit(f'setcd {h} {rnd.randint(1, 24) * U}')
+            emit(f'reset {h}')
+        elif kind == 'at' and r < 0.75:
+            if rnd.random() < 0.5:
+                emit(f'pause {h}')
+                emit('yield')
+            emit(f'resume {h}')
+        elif r < 0.9:
+            emit(f'cancel {h}')
+        else:
+            emit(f'enable {rnd.choice([0, 1])}')
+        emit('yield')
+        if rnd.random() < 0.4:
+            emit(f'sleep {rnd.randint(0, 3) * U // 2}')
+    if rnd.random() < 0.5:
+        emit(f'advance {rnd.randint(8, 30) * U}')
+        emit('enable 1')
+        emit('yield')
+    else:
+        emit('enable 1')
+        emit(f'sleep {rnd.randint(8, 30) * U}')
+    meta = {'executor': executor, 'ops': len(lines), 'jobs': n, 'tz': tzname, 'scenario': 'retime'}
+    return SchedCase(seed, executor, epoch, lines, specs, meta, tzname)
 
 
 def gen_sched_case(seed: int, max_ops: int = 40, max_jobs: int = 6, *, failures: bool = True,
                    kinds=('once', 'countdown', 'at'), focus: str | None = None) -> SchedCase:
     rnd = random.Random(seed)
-    epoch = 1_704_067_200_000_000_000 + rnd.choice([0, 0, 12345 * NS_US])
+    if focus in (None, 'C08', 'C09', 'C02') and rnd.random() < 0.3:
+        return gen_retime_case(seed, rnd)
+    p_create, p_time, p_enable, p_cb = PROFILES.get(focus, PROFILES[None])
+    fail_p = 0.45 if focus == 'C10' else 0.2
+    tzname, epoch = pick_epoch(rnd)
     now = epoch
     executor = rnd.choice(['sync', 'async'])
     lines: list[str] = []
@@ -73,7 +162,7 @@ def gen_sched_case(seed: int, max_ops: int = 40, max_jobs: int = 6, *, failures:
     nops = rnd.randint(5, max_ops)
     for _ in range(nops):
         r = rnd.random()
-        if r < 0.22 or not alive:
+        if r < p_create or not alive:
             if nh >= max_jobs and alive:
                 continue
             nh += 1
@@ -84,11 +173,11 @@ def gen_sched_case(seed: int, max_ops: int = 40, max_jobs: int = 6, *, failures:
             if kr < 0.3:
                 key = None
             elif kr < 0.8:
-                key = rnd.randint(1, 4)
+                key = rnd.randint(0, 4)      # 0: a falsy but valid id
             else:
                 key = 1000 + h
             expect_fail = key is not None and key in used_keys
-            ef = sorted(rnd.sample(range(0, 6), rnd.randint(1, 2))) if failures and rnd.random() < 0.2 else []
+            ef = sorted(rnd.sample(range(0, 6), rnd.randint(1, 2))) if failures and rnd.random() < fail_p else []
             tf: list[int] = []
             if kind == 'once':
                 k = rnd.choice([-4, -1, 0, 0, 1, 1, 2, 3, 5, 8, 'tol', 'tol-', 'half'])
@@ -104,14 +193,14 @@ def gen_sched_case(seed: int, max_ops: int = 40, max_jobs: int = 6, *, failures:
                     expect_fail = expect_fail or k < 0
                 spec = f'(once {t})'
             elif kind == 'countdown':
-                secs = rnd.choice([1, 1, 2, 3, 5]) * U if rnd.random() < 0.9 else rnd.choice([0, -U])
+                secs = rnd.choice([1, 1, 2, 3, 5, 8, 12]) * U if rnd.random() < 0.9 else rnd.choice([0, -U])
                 expect_fail = expect_fail or secs <= 0
                 spec = f'(countdown {secs})'
             else:
                 p = gen_sched_producer(rnd, now)
                 specs[h] = p
                 spec = f'(at {prod_sx(p)})'
-                if failures and rnd.random() < 0.25:
+                if failures and rnd.random() < fail_p:
                     tf = sorted(rnd.sample(range(0, 6), rnd.randint(1, 3)))
                     expect_fail = expect_fail or 0 in tf
             csv = lambda xs: ','.join(map(str, xs)) if xs else '-'   # noqa: E731
@@ -128,10 +217,10 @@ def gen_sched_case(seed: int, max_ops: int = 40, max_jobs: int = 6, *, failures:
             # (answered with NoHandle when the creation failed)
             emit(f'cbreg u {h} 0')
             emit(f'cbreg f {h} 0')
-        elif r < 0.5:
+        elif r < p_time:
             d = rnd.choice([0, 0, 1, 1, 2, 2, 3, 4, 6, 10, 20]) * U // rnd.choice([1, 1, 2])
             m = rnd.random()
-            if m < 0.6:
+            if m < (0.35 if focus == 'C09' else 0.6):
                 emit(f'sleep {d}')
             elif m < 0.8:
                 emit(f'advance {d}')
@@ -140,11 +229,11 @@ def gen_sched_case(seed: int, max_ops: int = 40, max_jobs: int = 6, *, failures:
                 emit(f'advance {d}')      # the next op is issued before the loop gets to run
             now += d
             kinds_count['time'] += 1
-        elif r < 0.56:
+        elif r < p_enable:
             emit(f'enable {rnd.choice([0, 1])}')
             emit('yield')
             kinds_count['enable'] += 1
-        elif r < 0.66:
+        elif r < p_cb:
             h, kind = rnd.choice(alive)
             k = rnd.choice(['u', 'f'])
             if regs and rnd.random() < 0.4:
@@ -160,16 +249,20 @@ def gen_sched_case(seed: int, max_ops: int = 40, max_jobs: int = 6, *, failures:
             kinds_count['cb'] += 1
         else:
             h, kind = rnd.choice(alive)
-            valid = {'once': ['cancel'], 'countdown': ['cancel', 'stop', 'reset', 'reset', 'reset', 'setcd'],
+            valid = {'once': ['cancel'], 'countdown': ['cancel', 'stop', 'reset', 'reset', 'reset', 'setcd', 'setcd'],
                      'at': ['cancel', 'pause', 'resume', 'resume']}[kind]
             op = rnd.choice(valid) if rnd.random() < 0.93 else rnd.choice(['pause', 'resume', 'stop', 'reset', 'setcd'])
             if op == 'setcd':
-                secs = rnd.choice([1, 2, 3, 4]) * U if rnd.random() < 0.85 else rnd.choice([0, -U])
+                secs = rnd.choice([1, 2, 3, 4, 6, 9]) * U if rnd.random() < 0.85 else rnd.choice([0, -U])
                 emit(f'setcd {h} {secs}')
+                if kind == 'countdown' and rnd.random() < 0.6:
+                    # re-time the running countdown with the new value (earlier or later than before)
+                    emit('yield')
+                    emit(f'reset {h}')
             else:
                 emit(f'{op} {h}')
             emit('yield')
             kinds_count['control'] += 1
     emit('sleep ' + str(rnd.choice([2, 5, 12]) * U))
-    meta = {'executor': executor, 'ops': len(lines), 'jobs': nh, **kinds_count}
-    return SchedCase(seed, executor, epoch, lines, specs, meta)
+    meta = {'executor': executor, 'ops': len(lines), 'jobs': nh, 'tz': tzname, **kinds_count}
+    return SchedCase(seed, executor, epoch, lines, specs, meta, tzname)
